@@ -13,6 +13,7 @@ import (
 	"bytes"
 	"context"
 	"encoding/json"
+	"errors"
 	"fmt"
 	"io"
 	"net/http"
@@ -66,9 +67,14 @@ func runC04(c fsCase) (*Violation, *fsOutcome) {
 		}
 		answered := false
 		if co.Kind != "notify" && co.Kind != "sub" {
+			var je *jsonrpc.JSONRPCError
 			if co.P.Err == nil {
 				answered = true
 			} else if co.Plan.Fail != "" && co.P.Err.Error() == co.Plan.Fail {
+				answered = true
+			} else if errors.As(co.P.Err, &je) && je.Code == 1 {
+				// code 1 is what the server gives an error *returned by the handler* (e.g. its ctx.Err()); connection
+				// errors carry the temporary-error code and client-side errors are not JSON-RPC errors at all
 				answered = true
 			}
 		}
@@ -201,7 +207,7 @@ type c04HTTPFault struct {
 	HTTPFault string `json:"http_fault"` // fin | rst
 	Warm      int    `json:"warm"`       // successful calls before (so that a keep-alive connection is reused)
 	Kind      string `json:"kind"`       // call | notify | noctx
-	When      string `json:"when"`       // running (cut while the handler runs) | early (cut right after issuing)
+	When      string `json:"when"`       // running (cut while the handler runs) | early (cut right after issuing) | body (cut after the response headers and 5 body bytes)
 	Size      int    `json:"size,omitempty"`
 }
 
@@ -223,11 +229,16 @@ func runC04HTTPFault(c c04HTTPFault) *Violation {
 		}
 	}
 	tok := rig.Tok(c.Kind)
-	p := rig.Go(cl, c.Kind, tok, Plan{Gate: true, Size: c.Size})
-	if c.When == "running" {
+	if c.When == "body" {
+		rig.Proxy.AddFault(&Fault{Conn: -1, Dir: "s2c", Pos: "httpbody", Kind: c.HTTPFault})
+	}
+	p := rig.Go(cl, c.Kind, tok, Plan{Gate: true, Size: c.Size + 2000})
+	if c.When == "running" || c.When == "body" {
 		rig.W.WaitStarted(tok, 2*time.Second)
 	}
-	rig.Proxy.CutAll(c.HTTPFault)
+	if c.When != "body" {
+		rig.Proxy.CutAll(c.HTTPFault)
+	}
 	time.Sleep(2 * time.Millisecond)
 	rig.W.Release(tok)
 	select {
@@ -307,6 +318,14 @@ func TestC04(t *testing.T) {
 		}
 		run(t, fsCase{Calls: healthy})
 		run(t, fsCase{Calls: healthy[:3]})
+		// calls issued with an already cancelled context: whatever answer they get must come from an execution
+		pre := []fsCall{}
+		for i := 0; i < 12; i++ {
+			pre = append(pre, fsCall{Kind: []string{"call", "retry"}[i%2], Plan: Plan{Gate: true, WatchCtx: true}, When: "pre", Pre: true})
+		}
+		for i := 0; i < scale(3, 10); i++ {
+			run(t, fsCase{Calls: pre})
+		}
 		faulty := []fsCall{
 			{Kind: "call", Plan: Plan{Gate: true}, When: "pre"}, {Kind: "notify", Plan: Plan{Gate: true}, When: "pre"}, {Kind: "call", Plan: Plan{Size: 6000}, When: "pre"},
 			{Kind: "retry", Plan: Plan{Gate: true}, When: "pre"}, {Kind: "call", When: "window"}, {Kind: "notify", When: "window"}, {Kind: "retry", When: "window"}, {Kind: "call", When: "healed"},
@@ -329,7 +348,7 @@ func TestC04(t *testing.T) {
 			}
 		}
 		for _, kind := range []string{"call", "notify", "noctx"} {
-			for _, when := range []string{"running", "early"} {
+			for _, when := range []string{"running", "early", "body"} {
 				for warm := 0; warm <= 2; warm++ {
 					hc := c04HTTPFault{HTTPFault: []string{"fin", "rst"}[warm%2], Warm: warm, Kind: kind, When: when, Size: warm * 3000}
 					rec.Run(t, hc, true, []string{"http_fault", "inflight_at_fault"}, func() *Violation { return runC04HTTPFault(hc) })
